@@ -117,8 +117,12 @@ func scriptFor(d *domain, seq []Op, o Op) string {
 }
 
 // runScriptStep runs the same history + operation as one risor program through risor.Eval.
-func runScriptStep(g map[string]any, d *domain, src string) (out realOut) {
-	res, err, pan := evalScript(g, src)
+func runScriptStep(h *harness, d *domain, src string, fresh bool) (out realOut) {
+	reuse := h.svm
+	if fresh {
+		reuse = nil
+	}
+	res, err, pan := evalScript(h.g, src, reuse)
 	if pan != "" {
 		out.panicked = pan
 		return
@@ -340,7 +344,7 @@ type stepResult struct {
 }
 
 // step checks one (history, operation) through the object API and, if asked and the API run agreed, through a script.
-func step(h *harness, g map[string]any, d *domain, seq []Op, before *mworld, o Op, withScript bool) (stepResult, bool) {
+func step(h *harness, d *domain, seq []Op, before *mworld, o Op, withScript bool) (stepResult, bool) {
 	after := before.clone()
 	e := evalModel(after, o)
 	out, rerr := runAPI(h, d, seq, o)
@@ -356,8 +360,15 @@ func step(h *harness, g map[string]any, d *domain, seq []Op, before *mworld, o O
 		after2 := before.clone()
 		e2 := evalModel(after2, o)
 		src := scriptFor(d, seq, o)
-		sout := runScriptStep(g, d, src)
+		sout := runScriptStep(h, d, src, false)
 		_, mm2, _ := judge(d, before, after2, e2, o, sout, "script")
+		if mm2 != nil || sout.isErr != out.isErr {
+			// decide on a fresh VM, exactly as an embedder calling risor.Eval would see it
+			after2 = before.clone()
+			e2 = evalModel(after2, o)
+			sout = runScriptStep(h, d, src, true)
+			_, mm2, _ = judge(d, before, after2, e2, o, sout, "script")
+		}
 		if mm2 != nil {
 			mm2.input = replayInput{Domain: d.name, Seq: seq, Op: o, Mode: "script", Script: src}
 			return stepResult{mm: mm2, class: class}, true
@@ -425,7 +436,6 @@ func report(r *ev.Run, so *stateOut) {
 
 // explore: breadth-first search over the reachable states of d, to a fixpoint.
 func explore(r *ev.Run, d *domain, stride int, t *totals) {
-	g := builtinGlobals()
 	init := state{m: d.init()}
 	seen := map[string]struct{}{init.m.key(d.vars): {}}
 	frontier := []state{init}
@@ -448,7 +458,7 @@ func explore(r *ev.Run, d *domain, stride int, t *totals) {
 			local := map[string]struct{}{}
 			for j, o := range d.enum(st.m) {
 				ws := (tIndex+base[i]+j)%stride == 0
-				res, scripted := step(h, g, d, st.seq, st.m, o, ws)
+				res, scripted := step(h, d, st.seq, st.m, o, ws)
 				so.steps++
 				if scripted {
 					so.scripts++
@@ -462,7 +472,9 @@ func explore(r *ev.Run, d *domain, stride int, t *totals) {
 					so.addMismatch(res.mm)
 					continue
 				}
-				if !d.admit(res.next) {
+				if !d.admit(res.next) || res.class == "error-required" || res.class == "error-admitted" {
+					// (an operation that raised an error never defines a state: where an error is admitted together with a
+					// reordering - sort of mixed types - the reordered contents are reachable without it)
 					continue
 				}
 				k := res.next.key(d.vars)
@@ -509,7 +521,6 @@ func explore(r *ev.Run, d *domain, stride int, t *totals) {
 // Only the last step of a sequence is judged (its prefix was judged as a shorter sequence); a sequence is
 // not extended past a mismatch.
 func unmerged(r *ev.Run, d *domain, maxDepth, stride int, t *totals) {
-	g := builtinGlobals()
 	type job struct {
 		pre []Op
 		m   *mworld
@@ -538,7 +549,7 @@ func unmerged(r *ev.Run, d *domain, maxDepth, stride int, t *totals) {
 				return
 			}
 			n++
-			res, scripted := step(h, g, d, seq, m, o, stride > 0 && (i*31+n)%stride == 0)
+			res, scripted := step(h, d, seq, m, o, stride > 0 && (i*31+n)%stride == 0)
 			so.steps++
 			if scripted {
 				so.scripts++
@@ -557,6 +568,9 @@ func unmerged(r *ev.Run, d *domain, maxDepth, stride int, t *totals) {
 			}
 			ho := o
 			ho.Err = res.class == "error-required" || res.class == "error-admitted"
+			if ho.Err && res.next.key(d.vars) != m.key(d.vars) {
+				return // error together with an admitted reordering: a flat program cannot continue from there
+			}
 			nseq := append(append(make([]Op, 0, len(seq)+1), seq...), ho)
 			for _, o2 := range d.enum(res.next) {
 				rec(nseq, res.next, o2, depth+1)
@@ -582,11 +596,19 @@ func Check(r *ev.Run, replay string) {
 		return
 	}
 	// bounds
-	listLen, aliasLen, strLen, maxZ := 4, 2, 4, 1
-	stride, udepth, ustride := 40, 2, 50
+	listLen, aliasLen, strLen, maxZ := 4, 3, 4, 1
+	stride, udepth, ustride := 20, 2, 50
 	if r.Thorough() {
 		aliasLen = 4
 		stride, udepth, ustride = 1, 3, 200
+	}
+	// byte_slice has ~1200 operations per state (19 x 19 slice bounds on two variables): depth 3 would be
+	// 1.3 x 10^8 sequences for no new kind of history, so its un-merged depth stays 2 in both tiers
+	udepthOf := func(d *domain) int {
+		if d.name == "byte_slice" {
+			return 2
+		}
+		return udepth
 	}
 	if s := envInt("C16_STRIDE"); s > 0 {
 		stride = s
@@ -618,7 +640,7 @@ func Check(r *ev.Run, replay string) {
 		dbg("bfs " + d.name)
 	}
 	for _, d := range doms {
-		unmerged(r, d, udepth, ustride, &t)
+		unmerged(r, d, udepthOf(d), ustride, &t)
 		dbg("unmerged " + d.name)
 	}
 	r.Set("states", t.states)
@@ -634,8 +656,8 @@ func Check(r *ev.Run, replay string) {
 		"set s (+ derived c): add remove delete clear union intersection in [v] len for-range; "+
 		"string over the code points of %q (every substring and every string of <= %d code points reachable by slicing, indexing, reversing, appending one code point): [i] [i:j] [:j] [i:] + in len for-range; "+
 		"byte_slice b = bytes of %q (+ derived c: slice / clone / byte_slice() / +), [i]=\"Z\" with at most %d changed bytes per variable; "+
-		"every transition through the object API, every %d-th also as a program through risor.Eval; plus all un-merged operation sequences of depth <= %d from %d starting histories per type (one with spare slice capacity and a stale slot)",
-		listLen, aliasLen, baseText, strLen, baseText, maxZ, stride, udepth, len(doms[0].prefixes)))
+		"every transition through the object API, every %d-th also as a program through risor.Eval; plus all un-merged operation sequences of depth <= %d (byte_slice: 2) from up to %d starting histories per type (for lists one with spare slice capacity and a stale slot), every %d-th of them also through risor.Eval",
+		listLen, aliasLen, baseText, strLen, baseText, maxZ, stride, udepth, len(doms[0].prefixes), ustride))
 	r.Sample(map[string]any{"domain": "list", "history": []string{"l.append(1)", "c = l[0:1]"}, "op": "c.append(2)", "judged": "result, error-or-not, contents of l and c against the Go slice model"})
 	r.Sample(map[string]any{"domain": "list", "script": scriptFor(doms[0], []Op{{K: "append", T: "l", V: "1"}}, Op{K: "iadd", T: "l", I: -1, V: "1"})})
 	r.Sample(map[string]any{"domain": "string", "op": Op{K: "slice", T: "s", I: 1, J: 3, D: "s"}.String(), "model": "é€"})
